@@ -11,6 +11,8 @@ package main
 import (
 	"context"
 	"fmt"
+	"io"
+	"log/slog"
 	"os"
 	"regexp"
 	"sort"
@@ -282,6 +284,7 @@ var c02Serial sync.Mutex // one case at a time: the hook handler is global
 func c02Impl(c lib.Case) []string {
 	c02Serial.Lock()
 	defer c02Serial.Unlock()
+	slog.SetDefault(slog.New(slog.NewTextHandler(io.Discard, nil))) // the operator logs every deploy/stop
 	hdr := strings.Fields(c.Header)
 	k, b := 1, 1
 	if len(hdr) >= 4 {
@@ -593,7 +596,36 @@ func c02Impl(c lib.Case) []string {
 		}
 		out = append(out, withSpurious(res))
 	}
+	c02Count(out)
 	return out
+}
+
+var c02Stats = map[string]int{}
+
+func c02Count(out []string) {
+	for _, o := range out {
+		switch {
+		case o == "parked":
+			c02Stats["senders_parked"]++
+		case o == "passed":
+			c02Stats["senders_passed"]++
+		case o == "busy":
+			c02Stats["busy_calls"]++
+		}
+		c02Stats["snapshots_read_back"] += strings.Count(o, "S(")
+		c02Stats["handler_calls"] += strings.Count(o, "H(")
+		c02Stats["barriers_rejected"] += strings.Count(o, "reject:")
+		c02Stats["timer_firings"] += strings.Count(o, "(t:") + strings.Count(o, ",t:")
+		if strings.Contains(o, "rel:") && !strings.HasSuffix(o, "rel:") {
+			c02Stats["completions_releasing_parked_senders"]++
+		}
+		if strings.Contains(o, "S(") && strings.Contains(o, "H(") {
+			c02Stats["completions_flushing_pending_batch"]++
+		}
+		if strings.Contains(o, "timeout") || strings.Contains(o, "spurious") {
+			c02Stats["timeouts_or_spurious"]++
+		}
+	}
 }
 
 func c02Err(err error) string {
@@ -682,8 +714,8 @@ func c02Scripts(r *lib.Rng, k int, tier string) [][]string {
 				n = 0 // consecutive barriers
 			}
 			for e := 0; e < n; e++ {
-				if withTimers && r.Chance(1, 4) {
-					wm += r.Range(0, 12)
+				if withTimers && r.Chance(1, 3) {
+					wm += r.Range(0, 20)
 					if r.Chance(1, 10) && wm > 3 {
 						wm -= 3 // watermarks are not required to be monotone here
 					}
@@ -694,7 +726,7 @@ func c02Scripts(r *lib.Rng, k int, tier string) [][]string {
 				t := 0
 				if withTimers && r.Chance(1, 2) {
 					// distinct keys never share a timer timestamp (firing order across key groups is C10's subject)
-					t = (r.Range(0, 12)*len(c02Keys) + ki + 1) % 250
+					t = r.Range(0, 6)*len(c02Keys) + ki + 1
 				}
 				s = append(s, fmt.Sprintf("ev %s %d %d", c02Keys[ki], payload%250+1, t))
 				payload++
@@ -793,41 +825,65 @@ func c02Case(k, b int, ops ...string) lib.Case {
 	return lib.Case{Header: fmt.Sprintf("M C02 %d %d", k, b), Ops: ops}
 }
 
-// all interleavings of two senders that each deliver `ev, bar 1, ev` (every sender action is either its next
-// send or the release of its gate); index selects one of the C(12,6) orders
-func c02Exhaustive(b int) []lib.Case {
-	scripts := [][]string{{"ev 61 1 0", "bar 1", "ev 61 2 0"}, {"ev 62 3 0", "bar 1", "ev 61 4 0"}}
+// all interleavings of the senders' actions for fixed small scripts (every sender action is either its next send
+// or the release of its gate; a parked or finished sender's action is a `go` that must be a no-op)
+func c02Exhaustive(scripts [][]string, b int) []lib.Case {
+	k := len(scripts)
+	need := make([]int, k)
+	for i := range scripts {
+		need[i] = 2 * len(scripts[i])
+	}
 	var out []lib.Case
-	var rec func(order []int, n0, n1 int)
-	rec = func(order []int, n0, n1 int) {
-		if n0 == 6 && n1 == 6 {
-			sim := &c02Sim{k: 2, scripts: scripts, pos: make([]int, 2), status: []byte{'-', '-'}, item: make([]string, 2)}
+	var rec func(order []int, done []int)
+	rec = func(order []int, done []int) {
+		complete := true
+		for i := range need {
+			if done[i] < need[i] {
+				complete = false
+			}
+		}
+		if complete {
+			sim := &c02Sim{k: k, scripts: scripts, pos: make([]int, k), status: make([]byte, k), item: make([]string, k)}
+			for i := range sim.status {
+				sim.status[i] = '-'
+			}
 			var ops []string
 			for _, i := range order {
 				switch {
-				case sim.status[i] == '-' && sim.pos[i] < 3:
+				case sim.status[i] == '-' && sim.pos[i] < len(scripts[i]):
 					ops = append(ops, fmt.Sprintf("send %d %s", i, scripts[i][sim.pos[i]]))
 					sim.send(i)
 				case sim.status[i] == 'p':
 					ops = append(ops, fmt.Sprintf("go %d", i))
 					sim.run(i)
 				default:
-					ops = append(ops, fmt.Sprintf("go %d", i)) // parked or finished: no-op
+					ops = append(ops, fmt.Sprintf("go %d", i))
 				}
 			}
-			ops = append(ops, "go 0", "go 1", "tick", "state")
-			out = append(out, c02Case(2, b, ops...))
+			for i := 0; i < k; i++ {
+				ops = append(ops, fmt.Sprintf("go %d", i))
+			}
+			ops = append(ops, "tick", "state")
+			out = append(out, c02Case(k, b, ops...))
 			return
 		}
-		if n0 < 6 {
-			rec(append(append([]int{}, order...), 0), n0+1, n1)
-		}
-		if n1 < 6 {
-			rec(append(append([]int{}, order...), 1), n0, n1+1)
+		for i := range need {
+			if done[i] < need[i] {
+				d := append([]int{}, done...)
+				d[i]++
+				rec(append(append([]int{}, order...), i), d)
+			}
 		}
 	}
-	rec(nil, 0, 0)
+	rec(nil, make([]int, k))
 	return out
+}
+
+func c02ExhaustiveAll() []lib.Case {
+	two := [][]string{{"ev 61 1 0", "bar 1", "ev 61 2 0"}, {"ev 62 3 0", "bar 1", "ev 61 4 0"}}
+	three := [][]string{{"bar 1", "ev 61 1 0"}, {"bar 1"}, {"ev 61 2 0", "bar 1"}}
+	out := append(c02Exhaustive(two, 1), c02Exhaustive(two, 2)...)
+	return append(out, c02Exhaustive(three, 2)...)
 }
 
 func propC02() *lib.Prop {
@@ -838,16 +894,18 @@ func propC02() *lib.Prop {
 		Rule: "cases = schedules of K sender goroutines against one real operator; non-trivial = at least one sender parked behind its own barrier and at least one checkpoint completed and was read back",
 		NumCases: func(tier string) int {
 			if tier == "thorough" {
-				return 4000
+				return 12000
 			}
 			return 420
 		},
 		Gen: func(r *lib.Rng, tier string, i int) lib.Case {
-			if tier == "thorough" && i < 2*924 {
+			if tier == "thorough" {
 				if exh == nil {
-					exh = append(c02Exhaustive(1), c02Exhaustive(2)...)
+					exh = c02ExhaustiveAll()
 				}
-				return exh[i]
+				if i < len(exh) {
+					return exh[i]
+				}
 			}
 			k := r.Range(1, 4)
 			b := r.Range(1, 5)
@@ -881,5 +939,12 @@ func propC02() *lib.Prop {
 			return parked && snap
 		},
 		MObs: func(op string) bool { return op == "state" },
+		Extra: func() map[string]any {
+			m := map[string]any{}
+			for k, v := range c02Stats {
+				m[k] = v
+			}
+			return m
+		},
 	}
 }
